@@ -89,6 +89,7 @@ _GENNAME = re.compile(r"^[A-Za-z_]*[A-Za-z_][0-9]+$")
 _DECL = re.compile(r"^\s*[A-Za-z_][A-Za-z_0-9:<>,\*&\s]*?[\s\*&>]([A-Za-z_][A-Za-z_0-9]*)\s*(\(.*\))?;\s*$")
 _FOR = re.compile(r"for\s*\(\s*auto\s*&&\s*([A-Za-z_][A-Za-z_0-9]*)\s*:")
 _LAMBDA = re.compile(r"lambda\s+([A-Za-z_][A-Za-z_0-9]*(?:\s*,\s*[A-Za-z_][A-Za-z_0-9]*)*)\s*:")
+_ARGN = re.compile(r"\barg_[0-9]+\b")
 DIAG_PREFIX = '"First() called on an empty sequence ('
 
 
@@ -113,6 +114,9 @@ def declared_names(files: Dict[str, str]) -> List[str]:
                 for m in _LAMBDA.finditer(line):
                     for p in m.group(1).split(","):
                         add(p.strip())
+                # func_adl's generated parameter names also occur free in the embedded text (their lambda is outside it)
+                for m in _ARGN.finditer(line[line.index(DIAG_PREFIX) :]):
+                    add(m.group(0))
     return out
 
 
